@@ -10,7 +10,7 @@ EXTENDS VecIndex, Json
 
 CONSTANTS Ids, MaxOps, Emit
 VARIABLES hist
-vars == <<rows, dead, trained, hist>>
+vars == <<rows, dead, trained, hw, hist>>
 
 \* ---- the lattice: positions on a line, squared distance
 VPos == <<0, 3, 4>>
